@@ -897,10 +897,16 @@ def future_accepts_failure(chk, found):
         sync_monitors = []
         for mname in facts["monitors"]:
             m = prog.lookup_method(cls, mname)
-            if m is not None and not m.is_async:
-                # only a monitor that catches what the payload raises hands failures on
-                if any(isinstance(h, ast.ExceptHandler) and h.name for h in ast.walk(m.node)):
-                    sync_monitors.append(m)
+            if m is not None:
+                # a monitor that catches (and names) what the CALL of the payload raises hands it on as it is: `payload()` is
+                # evaluated synchronously also in `await payload()`, and an exception caught inside the coroutine is not
+                # converted (PEP 479 only converts a StopIteration that LEAVES a coroutine frame)
+                pay = (m.params() or [None])[0]
+                for t in ast.walk(m.node):
+                    if isinstance(t, ast.Try) and any(h.name and (h.type is None or any(x in util.unparse(h.type) for x in ("BaseException", "Exception", "StopIteration"))) for h in t.handlers):
+                        if any(isinstance(c, ast.Call) and isinstance(c.func, ast.Name) and c.func.id == pay for b in t.body for c in ast.walk(b)):
+                            sync_monitors.append(m)
+                            break
         if not sync_monitors:
             continue
         for fis in cls.methods.values():
@@ -923,6 +929,30 @@ def future_accepts_failure(chk, found):
                         if isinstance(up, ast.Try) and any(h.type is None or any(x in util.unparse(h.type) for x in ("TypeError", "Exception", "BaseException")) for h in up.handlers) and any(isinstance(x, ast.Attribute) and x.attr == "set_exception" for h in up.handlers for x in ast.walk(h)):
                             guarded = True
                         up = par.get(id(up))
+                    if guarded and arg not in fi.params() and fi in sync_monitors:
+                        # the monitor sets the failure itself: interpret it with a payload whose call raises StopIteration
+                        STOP = exc_value("ext:builtins.StopIteration", "payload")
+                        pay = (fi.params() or [None])[0]
+
+                        def hook(it, path, ct, node, pay=pay):
+                            if ct[0] == "call" and ct[1] == ("sym", pay):
+                                return [("raise", STOP)]
+                            return None
+
+                        try:
+                            outs = Interp(prog, fi, call_hook=hook, decide=lambda it, p, t: False if (t[0] == "call" and t[1][0] == "attr" and t[1][2] == "done") else None).run()
+                        except Undecided:
+                            outs = []
+                        for o in outs:
+                            for ct in [e[1] for e in o.path.events if e[0] == "call" and e[1][1][0] == "attr" and e[1][1][2] == "set_exception"]:
+                                given = ct[2][0] if ct[2] else None
+                                caused = any(e[0] == "store" and e[1] == ("attr", given, "__cause__") and e[2] == STOP for e in o.path.events) or (is_exc(given) and len(given) > 4 and given[4] == STOP)
+                                if given == STOP or (is_exc(given) and "StopIteration" in given[1]):
+                                    chk.bad(rule, fi.qual, "%s tests the failure for StopIteration but still hands the StopIteration itself to Future.set_exception: the Future refuses it, the failure is lost" % fi.name, node=c, stmt="set_exception still given StopIteration in %s" % fi.name, input="calling the payload raises StopIteration()")
+                                    ok = False
+                                elif not caused:
+                                    chk.bad(rule, fi.qual, "%s replaces a StopIteration by %s without making the StopIteration its cause" % (fi.name, show(given)), node=c, stmt="StopIteration cause lost in %s" % fi.name, input="calling the payload raises StopIteration()")
+                                    ok = False
                     if guarded and arg in fi.params():
                         # what a StopIteration is replaced by: interpret the function with exactly that failure -- the
                         # future must be handed ANOTHER exception that carries the StopIteration as its cause
@@ -946,7 +976,7 @@ def future_accepts_failure(chk, found):
                         chk.bad(
                             rule,
                             fi.qual,
-                            "%s hands a failure caught around a synchronous payload call (%s) to Future.set_exception without testing it for StopIteration: the Future refuses it with TypeError inside the loop callback, the failure is only logged by the loop and the runtime keeps running although a payload raised"
+                            "%s hands a failure caught around the call of a payload (%s) to Future.set_exception without testing it for StopIteration: the Future refuses it with TypeError inside the loop callback, the failure is only logged by the loop and the runtime keeps running although a payload raised"
                             % (fi.name, ", ".join(m.name for m in sync_monitors)),
                             node=c,
                             stmt="set_exception unguarded in %s" % fi.name,
